@@ -170,10 +170,10 @@ def do_lower_bound(args):
     asks for 2^31 or more iterations and RETURNS A HASH within a few seconds has not done the work (no machine
     here performs 2 * 10^9 HMAC-SHA1 or 10^9 SHA-crypt rounds in that time).  A call still running at the deadline
     is what is expected; the worker is then discarded."""
-    m, prefix, count, budget = args
+    m, prefix, count, budget = args[:4]
     acc = common.Acc()
     w = pool.Worker(rt.PATHS["vw-opt"])
-    rb = facts.rbytes_pattern("rnd", 64, 5)
+    rb = facts.rbytes_pattern(args[4] if len(args) > 4 else "rnd", 64, 5)
     res, end = w.run([rt.obj_line(0), rt.gensalt_line("rn", prefix, count, rb, 64, 192)], 60)
     if end is not None or res[1]["r"] != "O":
         w.stop()
@@ -191,6 +191,11 @@ def do_lower_bound(args):
                       "crypt_gensalt(%s, count=%d) gives %r, and crypt returns a hash for it within %d s: the "
                       "requested cost cannot have been applied" % (m, count, g, budget),
                       rt.replay_obj("opt", [rt.obj_line(0), ln]))
+    elif end2 is None:
+        # answered at once, without a hash: the very top of the documented range, as crypt_gensalt wrote it, is refused
+        acc.violation("%s/generated-cost-refused/%s" % (PID, m),
+                      "crypt_gensalt(%s, count=%d) gives %r, and crypt refuses it (errno %s)" % (m, count, g, res2[0].get("e")),
+                      rt.replay_obj("opt", [rt.obj_line(0), ln]))
     elif isinstance(end2, pool.Death):
         acc.inconc("lower bound: worker died on %r" % g)
     return acc
@@ -202,7 +207,10 @@ def run(tier):
     cases = make_cases(run_.seed, tier)
     lb = [("sha1crypt", b"$sha1", 3000000000, 4), ("sha1crypt", b"$sha1", 2 ** 64 - 1, 4),
           ("sha256crypt", b"$5$", 999999999, 4), ("sha512crypt", b"$6$", 2 ** 64 - 1, 4),
-          ("bcrypt", b"$2b$", 31, 4)]          # each needs minutes to days; margins of two orders of magnitude
+          ("bcrypt", b"$2b$", 31, 4),
+          # random bytes that leave the requested number unperturbed: the documented maximum itself
+          ("sha1crypt", b"$sha1", 2 ** 64 - 1, 4, "zero"), ("sha1crypt", b"$sha1", 2 ** 32 - 1, 4, "zero"),
+          ("sha512crypt", b"$6$", 999999999, 4, "zero")]          # each needs minutes to days; margins of two orders of magnitude
     for acc in pool.pmap(do_lower_bound, lb):
         run_.merge(acc)
     for acc in pool.pmap(do_chunk, pool.chunks(cases, 150)):
